@@ -109,35 +109,90 @@ func TestFirstLevelPositionsExhaustive(t *testing.T) {
 	}, checkName, func(c nameCase) bool { return len(c.Name) > 0 })
 }
 
-func genScopeLabel(t *rapid.T) string {
-	n := rapid.IntRange(1, 10).Draw(t, "slen")
-	if rapid.IntRange(0, 19).Draw(t, "long") == 0 {
-		n = 63
-	}
-	b := make([]byte, n)
-	const set = "abcdefghijklmnopqrstuvwxyzABCDEFGHIJKLMNOPQRSTUVWXYZ0123456789-"
-	for i := range b {
-		b[i] = set[rapid.IntRange(0, len(set)-1).Draw(t, "sc")]
-		if (i == 0 || i == n-1) && b[i] == '-' {
+const scopeChars = "abcdefghijklmnopqrstuvwxyzABCDEFGHIJKLMNOPQRSTUVWXYZ0123456789-"
+
+var gScopeChar = rapid.SampledFrom([]byte(scopeChars))
+
+// scopeLabelOf draws a scope label of exactly n characters (letters, digits, inner hyphens).
+func scopeLabelOf(t *rapid.T, n int) string {
+	b := rapid.SliceOfN(gScopeChar, n, n).Draw(t, "sc")
+	for _, i := range []int{0, n - 1} {
+		if b[i] == '-' {
 			b[i] = 'x'
 		}
 	}
 	return string(b)
 }
 
+// genScopeLabel: label lengths 1..10 (seven draws in ten), any length 1..63 (two), or the longest.
+func genScopeLabel(t *rapid.T) string {
+	var n int
+	switch rapid.IntRange(0, 9).Draw(t, "slenClass") {
+	case 0:
+		n = 63
+	case 1, 2:
+		n = rapid.IntRange(1, 63).Draw(t, "slenAny")
+	default:
+		n = rapid.IntRange(1, 10).Draw(t, "slen")
+	}
+	return scopeLabelOf(t, n)
+}
+
+// maxNameWire: an RFC 1002 name - the 32-character label, the scope labels, the root - is at most 255
+// octets on the wire (RFC 1002 4.1, RFC 1035 2.3.4).
+const maxNameWire = 255
+
+// genScope draws a scope identifier of 0..8 labels, as far as the 255 octets of the whole name allow.
+// One draw in 25 fills the name up to exactly 255 octets.
 func genScope(t *rapid.T) string {
-	k := rapid.IntRange(0, 3).Draw(t, "scopeLabels")
+	k := rapid.IntRange(0, 8).Draw(t, "scopeLabels")
+	fill := k > 0 && rarely(t, "scopeFill", 8)
 	var parts []string
-	total := 34
+	total := 34 // length octet + 32 characters, and the root octet
 	for i := 0; i < k; i++ {
 		l := genScopeLabel(t)
-		if total+1+len(l) > 250 {
+		if total+1+len(l) > maxNameWire {
 			break
 		}
 		total += 1 + len(l)
 		parts = append(parts, l)
 	}
+	for fill && total+2 <= maxNameWire {
+		n := min(63, maxNameWire-total-1)
+		if n == maxNameWire-total-2 {
+			n-- // would leave one octet, not enough for a label
+		}
+		total += 1 + n
+		parts = append(parts, scopeLabelOf(t, n))
+	}
 	return strings.Join(parts, ".")
+}
+
+// scopeWireLen: the octets a name with this scope takes on the wire.
+func scopeWireLen(scope string) int {
+	if scope == "" {
+		return 34
+	}
+	return 34 + 1 + len(scope)
+}
+
+func classifyScope(s *vf.Sub, scope string) {
+	ls := scopeLabels(scope)
+	if len(ls) >= 4 {
+		s.Class("scope-of-4-or-more-labels")
+	}
+	if scopeWireLen(scope) == maxNameWire {
+		s.Class("name-of-255-octets")
+	}
+	if scopeWireLen(scope) > 34+192 {
+		s.Class("scope-over-192-octets")
+	}
+	for _, l := range ls {
+		if len(l) > 10 && len(l) < 63 {
+			s.Class("scope-label-of-11..62-characters")
+			break
+		}
+	}
 }
 
 func genNameBytes(t *rapid.T) vf.Hex {
@@ -155,8 +210,10 @@ func genNameBytes(t *rapid.T) vf.Hex {
 
 func TestFirstLevelRandom(t *testing.T) {
 	s := vf.Begin(t, P, "firstlevel-roundtrip")
-	vf.Rapid(s, vf.N(15000, 200000), func(t *rapid.T) nameCase { return nameCase{genNameBytes(t), genScope(t)} }, checkName,
-		func(c nameCase) bool { return len(c.Name) > 0 && c.Scope != "" })
+	vf.Rapid(s, vf.N(15000, 200000), func(t *rapid.T) nameCase { return nameCase{genNameBytes(t), genScope(t)} }, func(c nameCase) []vf.Finding {
+		classifyScope(s, c.Scope)
+		return checkName(c)
+	}, func(c nameCase) bool { return len(c.Name) > 0 && c.Scope != "" })
 }
 
 // ---- packets ---------------------------------------------------------------------------
@@ -172,7 +229,22 @@ type jRR struct {
 	Class uint16   `json:"class"`
 	TTL   uint32   `json:"ttl"`
 	RData vf.Hex   `json:"rdata"`
+	// The record's RDATA is RData followed by Pad pattern bytes (RDATA up to the 16-bit limit then
+	// costs neither draws nor replay-file space).
+	Pad     int   `json:"rdata_pad,omitempty"`
+	PadSeed uint8 `json:"rdata_pad_seed,omitempty"`
 }
+
+// data is the record's RDATA: the explicit bytes followed by the pad pattern.
+func (r jRR) data() []byte {
+	out := make([]byte, len(r.RData)+r.Pad)
+	copy(out, r.RData)
+	for i, pad := 0, out[len(r.RData):]; i < len(pad); i++ {
+		pad[i] = r.PadSeed + byte(i)*7 + byte(i>>8)
+	}
+	return out
+}
+
 type pktCase struct {
 	ID, Flags  uint16
 	Questions  []jQ  `json:"questions"`
@@ -190,7 +262,7 @@ func (c pktCase) lib() *nbtns.NBTNSPacket {
 	conv := func(in []jRR) []nbtns.NBTNSResourceRecord {
 		var out []nbtns.NBTNSResourceRecord
 		for _, r := range in {
-			out = append(out, nbtns.NBTNSResourceRecord{Name: &nbtns.NetBIOSName{Name: string(r.Name.Name), ScopeID: r.Name.Scope}, Type: r.Type, Class: r.Class, TTL: r.TTL, RDLength: uint16(len(r.RData)), RData: append([]byte{}, r.RData...)})
+			out = append(out, nbtns.NBTNSResourceRecord{Name: &nbtns.NetBIOSName{Name: string(r.Name.Name), ScopeID: r.Name.Scope}, Type: r.Type, Class: r.Class, TTL: r.TTL, RDLength: uint16(len(r.data())), RData: r.data()})
 		}
 		return out
 	}
@@ -207,6 +279,11 @@ func checkPacketRoundtrip(c pktCase) []vf.Finding {
 	if err != nil {
 		return []vf.Finding{vf.F("NBTNSPacket.Marshal", "valid-packet-rejected", "%v", err)}
 	}
+	return checkDecodes(wire, c)
+}
+
+// checkDecodes: wire, produced by Marshal for c, decodes to c and re-encodes to itself.
+func checkDecodes(wire []byte, c pktCase) []vf.Finding {
 	var got nbtns.NBTNSPacket
 	n, err := got.Unmarshal(wire)
 	if err != nil {
@@ -241,8 +318,8 @@ func checkPacketRoundtrip(c pktCase) []vf.Finding {
 		}
 		for i, r := range sec.want {
 			g := sec.got[i]
-			if !sameName(g.Name, r.Name) || g.Type != r.Type || g.Class != r.Class || g.TTL != r.TTL || int(g.RDLength) != len(r.RData) || !bytes.Equal(g.RData, r.RData) {
-				fs = append(fs, vf.F("NBTNSPacket.Unmarshal", sec.name+"-record-differs", "%s %d: got %+v", sec.name, i, g))
+			if want := r.data(); !sameName(g.Name, r.Name) || g.Type != r.Type || g.Class != r.Class || g.TTL != r.TTL || int(g.RDLength) != len(want) || !bytes.Equal(g.RData, want) {
+				fs = append(fs, vf.F("NBTNSPacket.Unmarshal", sec.name+"-record-differs", "%s %d: got %+v/%d/%d/%d rdlength %d, %d bytes %.40x; want %x %q/%d/%d/%d, %d bytes", sec.name, i, g.Name, g.Type, g.Class, g.TTL, g.RDLength, len(g.RData), g.RData, []byte(r.Name.Name), r.Name.Scope, r.Type, r.Class, r.TTL, len(want)))
 			}
 		}
 	}
@@ -304,7 +381,7 @@ func checkRefParse(c pktCase) []vf.Finding {
 		for i, r := range sec.want {
 			g := sec.got[i]
 			cmpName(sec.name, g.Name, r.Name)
-			if g.Type != r.Type || g.Class != r.Class || g.TTL != r.TTL || !bytes.Equal(g.RData, r.RData) {
+			if g.Type != r.Type || g.Class != r.Class || g.TTL != r.TTL || !bytes.Equal(g.RData, r.data()) {
 				fs = append(fs, vf.F("NBTNSPacket.Marshal", sec.name+"-fields-differ-under-rfc1002-parser", "%s %d", sec.name, i))
 			}
 		}
@@ -319,6 +396,9 @@ func rarely(t *rapid.T, label string, pct int) bool {
 	v := rapid.IntRange(0, 99).Draw(t, label)
 	return v >= 40 && v < 40+pct
 }
+
+// rdataLimits are the RDATA lengths at which an 8-, 15- or 16-bit view of RDLENGTH changes.
+var rdataLimits = []int{255, 256, 32767, 32768, 65534, 65535}
 
 // bigCounts are section sizes around the point where a count stops fitting 8 bits.
 var bigCounts = []int{255, 256, 257, 300}
@@ -374,7 +454,21 @@ func genPkt(t *rapid.T, maxRData int) pktCase {
 			default:
 				rl = rapid.IntRange(0, 30).Draw(t, "rds")
 			}
-			out = append(out, jRR{name(), rapid.Uint16().Draw(t, "t"), rapid.Uint16().Draw(t, "c"), rapid.Uint32().Draw(t, "ttl"), rapid.SliceOfN(rapid.Byte(), rl, rl).Draw(t, "rd")})
+			r := jRR{Name: name(), Type: rapid.Uint16().Draw(t, "t"), Class: rapid.Uint16().Draw(t, "c"), TTL: rapid.Uint32().Draw(t, "ttl")}
+			// about one record in 40, and only where RDATA may be long: any length 0..65535, half of them at
+			// the limits, the bulk of it a pattern; whatever entries follow it are read from where it ends
+			if maxRData > 64 && rarely(t, "rdLong", 5) {
+				if rapid.Bool().Draw(t, "rdAtLimit") {
+					r.Pad = rapid.SampledFrom(rdataLimits).Draw(t, "rdLimit")
+				} else {
+					r.Pad = rapid.IntRange(0, 65535).Draw(t, "rdAny")
+				}
+				rl = min(rl, 8, r.Pad)
+				r.Pad -= rl
+				r.PadSeed = rapid.Byte().Draw(t, "rdSeed")
+			}
+			r.RData = rapid.SliceOfN(rapid.Byte(), rl, rl).Draw(t, "rd")
+			out = append(out, r)
 		}
 		for i := drawn; i < total; i++ {
 			r := out[i%drawn]
@@ -391,6 +485,20 @@ func classified(s *vf.Sub, chk func(pktCase) []vf.Finding) func(pktCase) []vf.Fi
 	return func(c pktCase) []vf.Finding {
 		if len(c.Questions) > 255 || len(c.Answers) > 255 || len(c.Authority) > 255 || len(c.Additional) > 255 {
 			s.Class("section-over-255-entries")
+		}
+		for _, q := range c.Questions {
+			classifyScope(s, q.Name.Scope)
+		}
+		for _, sec := range [][]jRR{c.Answers, c.Authority, c.Additional} {
+			for i, r := range sec {
+				classifyScope(s, r.Name.Scope)
+				if len(r.RData)+r.Pad >= 32768 {
+					s.Class("rdata>=32768")
+					if i+1 < len(sec) {
+						s.Class("rdata>=32768-followed-by-a-record")
+					}
+				}
+			}
 		}
 		return chk(c)
 	}
@@ -491,23 +599,102 @@ func TestUnmarshalReuse(t *testing.T) {
 	})
 }
 
-// RDATA lengths at the 16-bit limit (one record per packet)
+// ---- the bytes Marshal returns are a value of their own ---------------------------------------
+
+// checkMarshalIndependent: the caller keeps the bytes of one Marshal while another packet is
+// marshalled (a responder with two replies in flight): the kept bytes still are the encoding of the
+// first packet - unchanged, and decoding to the first packet's content.
+func checkMarshalIndependent(c reuseCase) []vf.Finding {
+	w1, err := c.First.lib().Marshal()
+	if err != nil {
+		return []vf.Finding{vf.F("NBTNSPacket.Marshal", "valid-packet-rejected", "%v", err)}
+	}
+	saved := append([]byte{}, w1...)
+	w2, err := c.Second.lib().Marshal()
+	if err != nil {
+		return []vf.Finding{vf.F("NBTNSPacket.Marshal", "valid-packet-rejected", "second packet: %v", err)}
+	}
+	var fs []vf.Finding
+	if !bytes.Equal(w1, saved) {
+		fs = append(fs, vf.F("NBTNSPacket.Marshal", "earlier-result-overwritten-by-next-marshal", "the %d bytes returned for the first packet changed when a second packet (%d bytes) was marshalled", len(saved), len(w2)))
+	}
+	fs = append(fs, checkDecodes(w1, c.First)...)
+	return append(fs, checkDecodes(w2, c.Second)...)
+}
+
+func TestMarshalIndependent(t *testing.T) {
+	s := vf.Begin(t, P, "marshal-results-independent")
+	vf.Rapid(s, vf.N(5000, 60000), func(t *rapid.T) reuseCase {
+		c := reuseCase{First: genPkt(t, 64)}
+		// the second packet: another draw or, one time in three, the first with id, flags and TTLs changed
+		// (same length on the wire, different content)
+		if rapid.IntRange(0, 2).Draw(t, "secondKind") == 0 {
+			c.Second = c.First
+			c.Second.ID ^= rapid.Uint16Range(1, 0xFFFF).Draw(t, "idFlip")
+			c.Second.Flags = rapid.Uint16().Draw(t, "flags2")
+			c.Second.Answers = append([]jRR{}, c.First.Answers...)
+			for i := range c.Second.Answers {
+				c.Second.Answers[i].TTL ^= rapid.Uint32().Draw(t, "ttlFlip")
+			}
+		} else {
+			c.Second = genPkt(t, 64)
+		}
+		return c
+	}, checkMarshalIndependent, func(c reuseCase) bool { return pktNontrivial(c.First) || pktNontrivial(c.Second) })
+}
+
+// ---- RDATA length limits ---------------------------------------------------------------------
+
+type rdLimitCase struct {
+	Len     int    `json:"rdata_len"`
+	Section string `json:"section"`
+	Follow  bool   `json:"followed_by_another_record"`
+	Scoped  bool   `json:"scoped_names"`
+}
+
+func (c rdLimitCase) pkt() pktCase {
+	scope := ""
+	if c.Scoped {
+		scope = "eu.example"
+	}
+	recs := []jRR{{Name: nameCase{[]byte("HOST"), scope}, Type: 0x20, Class: 1, TTL: 300, Pad: c.Len, PadSeed: byte(c.Len)}}
+	if c.Follow {
+		recs = append(recs, jRR{Name: nameCase{[]byte("NEXT            "), scope}, Type: 0x21, Class: 1, TTL: 1, RData: vf.Hex{0, 0, 10, 0, 0, 1}})
+	}
+	p := pktCase{ID: 7, Flags: 0x8500, Questions: []jQ{{nameCase{[]byte("HOST"), scope}, 0x20, 1}}}
+	switch c.Section {
+	case "answer":
+		p.Answers = recs
+	case "authority":
+		p.Authority = recs
+	default:
+		p.Additional = recs
+	}
+	if c.Follow && c.Section != "additional" {
+		// and a record in the section after it
+		p.Additional = append(p.Additional, jRR{Name: nameCase{[]byte("LAST"), scope}, Type: 0x20, Class: 1, TTL: 2, RData: vf.Hex{1, 2}})
+	}
+	return p
+}
+
+// TestRDataLimits: RDATA of every length at which an 8/9/15/16-bit reading of RDLENGTH changes, in
+// each record section, alone and followed by further records (what comes after the RDATA is read
+// from where the decoder thinks the RDATA ends), through round-trip and the reference parser.
 func TestRDataLimits(t *testing.T) {
 	s := vf.Begin(t, P, "rdata-limits")
 	s.SetExhaustive()
-	type rc struct {
-		Len int `json:"rdata_len"`
-	}
-	vf.Enum(s, func(yield func(rc)) {
+	vf.Enum(s, func(yield func(rdLimitCase)) {
 		for _, l := range []int{0, 1, 255, 256, 511, 512, 513, 32767, 32768, 65534, 65535} {
-			yield(rc{l})
+			for _, sec := range []string{"answer", "authority", "additional"} {
+				for _, follow := range []bool{false, true} {
+					for _, scoped := range []bool{false, true} {
+						yield(rdLimitCase{l, sec, follow, scoped})
+					}
+				}
+			}
 		}
-	}, func(c rc) []vf.Finding {
-		rd := make([]byte, c.Len)
-		for i := range rd {
-			rd[i] = byte(i)
-		}
-		p := pktCase{ID: 7, Flags: 0x8500, Answers: []jRR{{nameCase{[]byte("HOST"), ""}, 0x20, 1, 300, rd}}}
+	}, func(c rdLimitCase) []vf.Finding {
+		p := c.pkt()
 		return append(checkPacketRoundtrip(p), checkRefParse(p)...)
-	}, nil)
+	}, func(c rdLimitCase) bool { return c.Len >= 255 })
 }
